@@ -14,6 +14,8 @@ RULE = (
     "identifiers, same three relations. settings: configurations with every subset of the 0x0620 naming values at byte widths 1..4 -> create_from_prj_settings / "
     "create_from_dev_settings fields equal the big-endian integers / decoded names put in, name-only fallback exactly when the numeric scheme is incomplete, the "
     "documented Missing...NameError otherwise. reject: text matching neither documented shape even as a prefix must raise ConfigIdFormatError. "
+    "Names (identifier names and configured naming values) also get codec / strip / normalisation-sensitive characters (U+FEFF, U+200B, U+00A0, NUL, ...) "
+    "constructed into FIRST and LAST position. "
     "Non-trivial = identifier with a name, or a field at a zero-padding boundary (9/10, 99/100, 999/1000, 9999/10000) or at 0 / max; distinct by field tuple."
 )
 ASSUMPTIONS = [
@@ -201,7 +203,14 @@ def check_reject(case, rec):
 
 
 _name_chars = st.characters(exclude_categories=["Cs"], exclude_characters="\n\r\x0b\x0c\x1c\x1d\x1e\x85  ")
+# characters that codecs ("utf-8-sig"), strip() or normalisation treat specially, placed FIRST or LAST (seed C12m: a leading U+FEFF); all inside _name_chars
+_EDGE_CHARS = ["\ufeff", "\u200b", "\u00a0", "\x00", "\u200e", "\ufffe", "\u3000", "\x7f", "\xad"]
+_edge_names = st.one_of(
+    st.builds(lambda c, rest: c + rest, st.sampled_from(_EDGE_CHARS), st.text(_name_chars, max_size=6)),
+    st.builds(lambda rest, c: rest + c, st.text(_name_chars, max_size=6), st.sampled_from(_EDGE_CHARS)),
+)
 _names = st.one_of(
+    _edge_names,
     st.sampled_from(["Testname", "a", " ", "a b", " lead", "trail ", "x (version 07)", "(version 07)", "n (version 7)", "12345-1234-1234-12", "12345-1234-1234-12 rest",
                      "1-2-3", "00000-0000-0000-00", "name-with-dash-01", "n (version 99) (version 01)", "99999-9999-9999-99 (version 00)"]),
     st.text(_name_chars, min_size=1, max_size=20),
@@ -229,7 +238,7 @@ def strat_settings(draw, tier="quick"):
     cfg = []
     for v in sorted(present):
         if v in (3, 6):
-            cfg.append(((CM.K, v), draw(st.one_of(st.just(b""), st.text(_name_chars, min_size=1, max_size=12).map(lambda s: s.encode())))))
+            cfg.append(((CM.K, v), draw(st.one_of(st.just(b""), st.text(_name_chars, min_size=1, max_size=12).map(lambda s: s.encode()), _edge_names.map(lambda s: s.encode())))))
         else:
             width = draw(st.integers(1, 4))
             top = {1: 99999, 2: 9999, 5: 9999, 4: 99, 7: 99}[v]
